@@ -611,4 +611,104 @@ theorem specOp_pushData (pc : Nat) (d tl : Bytes) (hd : pc + d.length + 5 < 4294
   simp [Ops.OP_1, Ops.OP_16, Ops.OP_DATA_1, Ops.OP_DATA_75, Ops.OP_PUSHDATA1, Ops.OP_PUSHDATA2,
     Ops.OP_PUSHDATA4, specData, this]
 
+
+/-! ### decoding programs built piece by piece -/
+
+theorem specProg_nil (fuel pc : Nat) : specProg (fuel + 1) pc [] = .ok [] := rfl
+
+theorem specProg_step {fuel pc : Nat} {a tl : Bytes} {i : Inst}
+    (h : specOp pc (a ++ tl) = .ok i) (hl : i.len = a.length) (ha : a ≠ []) :
+    specProg (fuel + 1) pc (a ++ tl) =
+      match specProg fuel (pc + a.length) tl with
+      | .error e => .error e
+      | .ok r => .ok (i :: r) := by
+  cases a with
+  | nil => exact absurd rfl ha
+  | cons b t =>
+    have e : (b :: t) ++ tl = b :: (t ++ tl) := rfl
+    rw [e] at h ⊢
+    conv => lhs; unfold specProg
+    simp only [h]
+    rw [hl, ← e, List.drop_left]
+
+theorem specProg_push {fuel pc : Nat} (d tl : Bytes) (hd : pc + d.length + 5 < 4294967296) :
+    specProg (fuel + 1) pc (pushDataBytes d ++ tl) =
+      match specProg fuel (pc + (d.length + pushHdr d.length)) tl with
+      | .error e => .error e
+      | .ok r => .ok (⟨pushOp d.length, d.length + pushHdr d.length, d⟩ :: r) := by
+  have hne : pushDataBytes d ≠ [] := by
+    intro h0; have := congrArg List.length h0
+    rw [pushDataBytes_length] at this; have hb := (pushHdr_bounds d.length).1
+    simp only [List.length_nil] at this; omega
+  have := @specProg_step fuel pc _ tl _ (specOp_pushData pc d tl hd) (by simp [pushDataBytes_length]) hne
+  rw [this, pushDataBytes_length]
+
+/-- a one-byte instruction without data -/
+def IsPlain (op : UInt8) : Prop :=
+  ¬ (Ops.OP_1 ≤ op.toNat ∧ op.toNat ≤ Ops.OP_16) ∧ ¬ (Ops.OP_DATA_1 ≤ op.toNat ∧ op.toNat ≤ Ops.OP_DATA_75) ∧
+  op.toNat ≠ Ops.OP_PUSHDATA1 ∧ op.toNat ≠ Ops.OP_PUSHDATA2 ∧ op.toNat ≠ Ops.OP_PUSHDATA4 ∧
+  ¬ (op.toNat = Ops.OP_JUMP ∨ op.toNat = Ops.OP_JUMPIF)
+instance (op : UInt8) : Decidable (IsPlain op) := by unfold IsPlain; infer_instance
+
+theorem specOp_plain {pc : Nat} {op : UInt8} (tl : Bytes) (h : IsPlain op) :
+    specOp pc (op :: tl) = .ok ⟨op, 1, []⟩ := by
+  obtain ⟨h1, h2, h3, h4, h5, h6⟩ := h
+  unfold specOp
+  simp only [h1, h2, h3, h4, h5, h6, if_false]
+
+theorem specProg_plain {fuel pc : Nat} {op : UInt8} (tl : Bytes) (h : IsPlain op) :
+    specProg (fuel + 1) pc (op :: tl) =
+      match specProg fuel (pc + 1) tl with
+      | .error e => .error e
+      | .ok r => .ok (⟨op, 1, []⟩ :: r) := by
+  have := @specProg_step fuel pc [op] tl _ (specOp_plain tl h) rfl (by simp)
+  simpa using this
+
+theorem pushOp_toNat (n : Nat) : (pushOp n).toNat =
+    if n = 0 then 0 else if n ≤ 75 then n else if n < 256 then 76 else if n < 65536 then 77 else 78 := by
+  unfold pushOp
+  split
+  · simp [byte, Ops.OP_0]
+  split
+  · exact byte_toNat (by omega)
+  split
+  · simp [byte, Ops.OP_PUSHDATA1]
+  split
+  · simp [byte, Ops.OP_PUSHDATA2]
+  · simp [byte, Ops.OP_PUSHDATA4]
+
+/-- fuel beyond what was needed does not change a successful result -/
+theorem specProg_mono (fuel : Nat) : ∀ (pc : Nat) (s : Bytes) (r : List Inst) (k : Nat),
+    specProg fuel pc s = .ok r → specProg (fuel + k) pc s = .ok r := by
+  induction fuel with
+  | zero => intro pc s r k h; simp [specProg] at h
+  | succ fuel ih =>
+    intro pc s r k h
+    have e : fuel + 1 + k = (fuel + k) + 1 := by omega
+    rw [e]
+    unfold specProg at h ⊢
+    cases s with
+    | nil => exact h
+    | cons b t =>
+      simp only [] at h ⊢
+      cases hsp : specOp pc (b :: t) with
+      | error e' => rw [hsp] at h; cases h
+      | ok i =>
+        rw [hsp] at h
+        simp only [] at h ⊢
+        cases hrec : specProg fuel (pc + i.len) ((b :: t).drop i.len) with
+        | error e' => rw [hrec] at h; cases h
+        | ok rest =>
+          rw [hrec] at h
+          rw [ih _ _ _ k hrec]
+          exact h
+
+/-- ParseProgram through the suffix decoder with any sufficient fuel -/
+theorem parseProgram_of_spec {p : Bytes} {r : List Inst} {fuel : Nat} (hlen : p.length ≤ maxInt32)
+    (hf : fuel ≤ p.length + 1) (h : specProg fuel 0 p = .ok r) : parseProgram p = .ok r := by
+  rw [parseProgram_eq p hlen]
+  have := specProg_mono fuel 0 p r (p.length + 1 - fuel) h
+  have e : fuel + (p.length + 1 - fuel) = p.length + 1 := by omega
+  rwa [e] at this
+
 end BytomModel.Lemmas.Asm
